@@ -2,7 +2,7 @@
      html_escape / html_unescape      html.escape(s) (quote=True) and a reader of exactly its five entities
      mathml_scan                      re.findall(r'([^\[\]]+)(\[.+?\])*', cat) as a deterministic scanner
      mathml_cat, mathml_subtree       _mathml_cat, _mathml_subtree (bgcolor=None) as texts
-     html_doc                         depccg.printer.to_string(batch, format='html') = to_mathml inside _MATHML_MAIN
+     tree_word                        Tree.word (the sentence header of to_mathml); to_mathml / to_string(format='html') itself: FmtHtmlDoc.v
      hnode, hser                      an element tree and its serialisation
      mathml_node / mathml_nodes       the element tree that _mathml_subtree writes (whitespace text nodes included)
      view_html, dec_mathml            the format-independent view and an independent reader of the element tree
@@ -182,43 +182,8 @@ Fixpoint opt_list {A : Type} (l : list (option A)) : option (list A) :=
 (* Tree.word = ' '.join(token['word'] for token in self.tokens) *)
 Definition tree_word (t : tree) : option text := option_map (join [cSP]) (opt_list (map leaf_word (tokens t))).
 
-Definition x_main_pre : text :=
-  Eval vm_compute in
-    T "<!doctype html>" ++ [hNL] ++ T "<html lang='en'>" ++ [hNL] ++ T "<head>" ++ [hNL] ++ T "  <meta charset='UTF-8'>" ++ [hNL] ++
-    T "  <style>" ++ [hNL] ++ T "    body {" ++ [hNL] ++ T "      font-size: 1em;" ++ [hNL] ++ T "    }" ++ [hNL] ++ T "  </style>" ++ [hNL] ++
-    T "  <script type=""text/javascript""" ++ [hNL] ++
-    T "     src=""http://cdn.mathjax.org/mathjax/latest/MathJax.js?config=TeX-AMS-MML_HTMLorMML"">" ++ [hNL] ++
-    T "  </script>" ++ [hNL] ++ T "</head>" ++ [hNL] ++ T "<body>" ++ [hNL] ++ T "  ".
-Definition x_main_post : text := Eval vm_compute in [hNL] ++ T "</body>" ++ [hNL] ++ T "</html>" ++ [hNL].
-Definition x_p_id : text := Eval vm_compute in T "<p>ID=".
-Definition x_colon : text := Eval vm_compute in T ": ".
-Definition x_p_close : text := Eval vm_compute in T "</p>".
-Definition x_p_prob : text := Eval vm_compute in T "<p>Log prob=".
-Definition x_math_open : text := Eval vm_compute in T "<math xmlns=""http://www.w3.org/1998/Math/MathML"">".
-Definition x_math_close : text := Eval vm_compute in T "</math>".
-
-(* one (score, tree) record; the score is the text of f'{prob:.5e}' *)
-Definition html_record (st : text * tree) : option text :=
-  option_map (fun body => x_p_prob ++ fst st ++ x_p_close ++ x_math_open ++ body ++ x_math_close) (mathml_subtree (snd st)).
-(* one sentence: the header shows the words of the FIRST tree of the n-best list *)
-Definition html_sentence (g : nat * list (text * tree)) : option text :=
-  match snd g with
-  | [] => None                                                    (* trees[0]: IndexError *)
-  | (_, t0) :: _ =>
-      match tree_word t0 with
-      | None => None                                              (* KeyError 'word' *)
-      | Some ws =>
-          match concat_opt (map html_record (snd g)) with
-          | Some body => Some (x_p_id ++ show_nat (fst g) ++ x_colon ++ html_escape ws ++ x_p_close ++ body)
-          | None => None
-          end
-      end
-  end.
-Definition html_doc (b : list (list (text * tree))) : option text :=
-  match b with
-  | [] => None                                                    (* to_string: nbest_trees[0] IndexError *)
-  | _ => option_map (fun r => x_main_pre ++ r ++ x_main_post) (concat_opt (map html_sentence (number_groups 1 b)))
-  end.
+(* to_mathml itself (the sentence header, the score line, the <math> wrapper, the page of _MATHML_MAIN) is in FmtHtmlDoc.v: its
+   constant texts are not written here but generated from the source (GenFmt.v) *)
 
 (* ---------- element trees ---------- *)
 (* HText holds character data un-escaped; attrs is the raw text between the tag name and '>' (leading blank included) *)
